@@ -397,14 +397,23 @@ func init() {
 				vsched.CtrAdd(cInStream, -1)
 				return len(p), nil
 			}}
+			reentrant := vsched.Choose(2) == 1 // the close function itself uses the wrapper (it is called without the wrapper's lock)
+			var rc io.Closer
+			var op func([]byte) (int, error)
 			closeFn := func() error {
 				if vsched.CtrAdd(cCloses, 1) > 1 {
 					fail("C20.iocloser-close-count", "close function ran twice")
 				}
+				if reentrant {
+					if n, err := op(make([]byte, 1)); n != 0 || err != io.EOF {
+						fail("C20.iocloser-after-close", "an operation issued from inside the close function returned (%d,%v), want (0,EOF)", n, err)
+					}
+					if err := rc.Close(); err != nil {
+						fail("C20.iocloser-close-result", "Close from inside the close function returned %v", err)
+					}
+				}
 				return nil
 			}
-			var rc io.Closer
-			var op func([]byte) (int, error)
 			if writer {
 				w := iocloser.NewWriteCloser(st, closeFn)
 				rc, op = w, w.Write
@@ -479,6 +488,9 @@ func init() {
 			}
 			s1 := newProxyStream(1, mkChunks([]byte{1, 2, 3, 4}), true)
 			s2 := newProxyStream(2, mkChunks([]byte{5, 6, 7}), false)
+			if vsched.Choose(2) == 1 {
+				s1.endErr = errStream // stream 1 ends with a read error instead of EOF: everything is torn down all the same
+			}
 			gF := &vsched.Gate{}
 			vsched.OnQuiescent(func() bool {
 				switch vsched.CtrAdd(cPhase, 1) {
@@ -717,6 +729,7 @@ type proxyStream struct {
 	endsEOF bool         // after its message: wait for the eof gate, then return io.EOF
 	eof     *vsched.Gate // opened by the harness when the remote side ends
 	closed  chan struct{}
+	endErr  error // returned instead of io.EOF when set
 }
 
 func newProxyStream(id int, chunks [][]byte, endsEOF bool) *proxyStream {
@@ -748,6 +761,9 @@ func (s *proxyStream) Read(p []byte) (int, error) {
 		}
 		if vsched.ChanClosed((<-chan struct{})(s.closed)) {
 			return 0, io.ErrClosedPipe
+		}
+		if s.endErr != nil {
+			return 0, s.endErr // the stream fails instead of ending cleanly
 		}
 		return 0, io.EOF
 	}
